@@ -150,6 +150,9 @@ class FutureBase(object):
 
     def raise_if_error(self):
         if self._error is not None:
+            if not hasattr(self._error, "_traceback"):
+                # never prepared for re-raising (set by hand), whatever its _type_ may say
+                raise self._error
             core_errors.reraise(self._error)
 
     def __call__(self):
